@@ -189,6 +189,7 @@ func (db *RockDB) SAdd(ts int64, key []byte, args ...[]byte) (int64, error) {
 	if len(args) > MAX_BATCH_NUM {
 		return 0, errTooMuchBatchSize
 	}
+	args = uniqueArgs(args)
 
 	wb := db.wb
 	defer wb.Clear()
@@ -360,6 +361,7 @@ func (db *RockDB) SRem(ts int64, key []byte, args ...[]byte) (int64, error) {
 	if len(args) > MAX_BATCH_NUM {
 		return 0, errTooMuchBatchSize
 	}
+	args = uniqueArgs(args)
 	wb := db.wb
 	defer wb.Clear()
 	keyInfo, err := db.GetCollVersionKey(ts, SetType, key, false)
